@@ -25,12 +25,13 @@ EbDrift(r) == (r.e = "EbProbe" /\ r.mode \notin {"kd", "ia"}) =>
          /\ r.pk # "ub", "EbDecoder prediction")
 \* the order in which the attribute decoder visits the vertices (EbDecoder!Traverse): every point the model's traversal reports holds the attribute value
 \* with the predicted index
-OrderDrift(r) == (r.e = "EbProbe" /\ r.mode \in {"std", "val"} /\ r.natt = 1 /\ r.pred = "acc" /\ r.ok /\ r.trav = "" /\ Len(r.pred_vidx) = r.np /\ Len(r.vidx) = r.np) =>
+\* (natt = 6: the same under the prediction-degree traversal, EbDecoder!TraversePD)
+OrderDrift(r) == (r.e = "EbProbe" /\ r.mode \in {"std", "val"} /\ r.natt \in {1, 6} /\ r.pred = "acc" /\ r.ok /\ r.trav = "" /\ Len(r.pred_vidx) = r.np /\ Len(r.vidx) = r.np) =>
    Drift(\A p \in 1..r.np : r.pred_vidx[p] # -1 => r.vidx[p] = r.pred_vidx[p], "EbDecoder traversal order")
 \* natt = 2: the same connectivity with the position attribute coded by the parallelogram scheme under the wrap transform (EbDecoder!ParaPos): every
 \* reported point decodes to the predicted position
 \* natt = 3, 4, 5: constrained multi-parallelogram prediction with all crease flags clear / set / alternating (EbDecoder!CmPos)
-ParaDrift(r) == (r.e = "EbProbe" /\ r.mode \in {"std", "val"} /\ r.natt >= 2 /\ r.pred = "acc" /\ r.ok /\ Len(r.pred_pts) = r.np /\ Len(r.pts) = r.np) =>
+ParaDrift(r) == (r.e = "EbProbe" /\ r.mode \in {"std", "val"} /\ r.natt \in 2..5 /\ r.pred = "acc" /\ r.ok /\ Len(r.pred_pts) = r.np /\ Len(r.pts) = r.np) =>
    Drift(\A p \in 1..r.np : r.pred_pts[p] # <<>> => r.pts[p] = r.pred_pts[p], "EbDecoder parallelogram prediction")
 \* kd-tree rows (module KdTree): the real encoder writes the bytes assembled from the model's request lists (honest rows); the real decoder accepts
 \* exactly what the model accepts -- nothing behind the kd-tree payload can refuse a uint32 attribute -- and returns the model's points in the model's order
